@@ -387,6 +387,7 @@ type apCase struct {
 	specs  []aggrSpec
 	oracle bool
 	raw    bool // store with numeric-looking texts
+	store  []KV // the family's own pairs (nil: apStore)
 }
 
 var apRawPool = []KV{{"a", "1"}, {"ab", "1.5"}, {"abc", "-0.25"}, {"a1", "2e3"}, {"a12", "007"}, {"b", "+5"}, {"b1", "9223372036854775808"},
@@ -483,6 +484,77 @@ func apSelect(gs []orderField, specs []aggrSpec, where string) string {
 		q += " group by " + strings.Join(grp, ", ")
 	}
 	return q
+}
+
+// apGenCollide: 2–3 GROUP BY fields over group values of ≥ 10 bytes, values that begin with
+// decimal digits and values that contain ':' — DIFFERENT value tuples whose length-prefixed or
+// separator-joined concatenations are byte-equal as soon as the group key loses a piece of its
+// encoding:  ("0", X+"1"+c) and ("10"+X, c) are both 1·0·10·X·1·c when the ':' after a length
+// is dropped (|X| = 8);  ("a:b", "c") / ("a", "b:c") coincide under a bare ':' join;  ("1", "23")
+// / ("12", "3") under plain concatenation.  The oracle partitions by the value tuples themselves.
+func apGenCollide(r *Rand) apCase {
+	alpha := []byte("abcdefgh01:z")
+	x := make([]byte, 8)
+	for i := range x {
+		x[i] = pick(r, alpha)
+	}
+	X, c := string(x), string([]byte{pick(r, []byte("zq7:"))})
+	tuples := [][2]string{
+		{"0", X + "1" + c}, {"10" + X, c},
+		{"a:b", "c"}, {"a", "b:c"}, {"1", "23"}, {"12", "3"}, {"1:a", "b"}, {"1", ":ab"},
+		{"2", "10:" + X}, {"210", ":" + X}, {"10" + X, c + c}, {"0", X + "1"}, {"00", X + "1" + c},
+		{"10:" + X, "1:" + c}, {X + X, "0123456789"}, {X + X + "0", "123456789"},
+	}
+	// the colliding pair always, the others at random; shuffled
+	kvs := []KV{{tuples[0][0], tuples[0][1]}, {tuples[1][0], tuples[1][1]}}
+	for _, t := range tuples[2:] {
+		if r.Chance(1, 2) {
+			kvs = append(kvs, KV{t[0], t[1]})
+		}
+	}
+	for i := len(kvs) - 1; i > 0; i-- {
+		j := r.Intn(i + 1)
+		kvs[i], kvs[j] = kvs[j], kvs[i]
+	}
+	key, val := orderField{"key", "KEY", "str"}, orderField{"value", "VALUE", "str"}
+	empty := orderField{"substr(value, 0, 0)", "e", "str"}
+	var gs []orderField
+	switch r.Intn(6) {
+	case 0, 1:
+		gs = []orderField{key, val}
+	case 2:
+		gs = []orderField{val, key}
+	case 3:
+		gs = []orderField{empty, key, val}
+	case 4:
+		gs = []orderField{key, val, empty}
+	default:
+		gs = []orderField{key, val, {"strlen(key) > 0", "b", "bool"}}
+	}
+	specs := []aggrSpec{{call: "count(1)", kind: "count"}}
+	if r.Bool() {
+		specs = append(specs, aggrSpec{call: "group_concat(key, ',')", arg: "key", kind: "concat"})
+	}
+	if r.Chance(1, 3) {
+		specs = append(specs, aggrSpec{call: "sum(strlen(value))", arg: "strlen(value)", kind: "sum"})
+	}
+	return apCase{q: apSelect(gs, specs, pick(r, []string{"true", "key >= ''", "value != ''"})), family: "collide", gs: gs, specs: specs, oracle: true, store: kvs}
+}
+
+// apManyGroups (thorough tier): more than 256 groups in one statement — ~300 distinct group values
+// over ~700 pairs, one and two GROUP BY fields
+func apManyGroups(r *Rand) []apCase {
+	var kvs []KV
+	nv := 290 + r.Intn(40)
+	for i := 0; i < 700; i++ {
+		kvs = append(kvs, KV{fmt.Sprintf("k%04d", i), fmt.Sprintf("g%03d", r.Intn(nv))})
+	}
+	val, k1 := orderField{"value", "VALUE", "str"}, orderField{"substr(key, 0, 4)", "k4", "str"}
+	specs := []aggrSpec{{call: "count(1)", kind: "count"}, {call: "sum(strlen(key))", arg: "strlen(key)", kind: "sum"}}
+	return []apCase{
+		{q: apSelect([]orderField{val}, specs, "true"), family: "many-groups", gs: []orderField{val}, specs: specs, oracle: true, store: kvs},
+		{q: apSelect([]orderField{k1, val}, specs[:1], "key >= 'k0100'"), family: "many-groups", gs: []orderField{k1, val}, specs: specs[:1], oracle: true, store: kvs},
+	}
 }
 
 // aggregate arguments and key fields that go through an alias of the select list
@@ -1014,12 +1086,21 @@ func runAGGRPLAN(e *Env) (*Summary, error) {
 				default:
 					c = apGenFree(r)
 				}
+				if ix%16 == 9 {
+					c = apGenCollide(r)
+				}
 				kvs := apStore(r, c.raw)
+				if c.store != nil {
+					kvs = c.store
+				}
 				if err := apOne(col, d, c, apRun{via: "optimizer", kvs: kvs}, bs, e.Seed, ix); err != nil {
 					return err
 				}
 				// the stub child: pairs in any order, with duplicates, in any chunking
 				pool := apStore(r, c.raw)
+				if c.store != nil {
+					pool = c.store
+				}
 				var chunks [][]KV
 				if len(pool) > 0 {
 					for tot, want := 0, r.Intn(15); tot < want; {
@@ -1043,6 +1124,20 @@ func runAGGRPLAN(e *Env) (*Summary, error) {
 		})
 		if err != nil {
 			return nil, err
+		}
+	}
+	if e.Tier == "thorough" {
+		// more than 256 groups, at the default batch size
+		kvql.PlanBatchSize = 32
+		d, err := StartDriver(e.DriverPath)
+		if err != nil {
+			return nil, err
+		}
+		defer d.Close()
+		for i, c := range apManyGroups(NewRand(e.Seed, "AGGRPLAN-many", 0)) {
+			if err := apOne(col, d, c, apRun{via: "optimizer", kvs: c.store}, 32, e.Seed, uint64(900_000_000+i)); err != nil {
+				return nil, err
+			}
 		}
 	}
 	return col.Finish(start), nil
